@@ -271,13 +271,13 @@ struct Reg
   {
     auto add = [](const std::string &name, int bq, int bt) { new McRegister(strdup(name.c_str()), entry, bq, bt, 8000); };
     for (int k = 1; k <= 3; k++)
-      add("schedule_x_" + std::to_string(k), k == 3 ? 1 : 2, k == 3 ? 2 : 3);
+      add("schedule_x_" + std::to_string(k), k == 3 ? 2 : 3, k == 3 ? 3 : 4);
     for (const char *seq : {"21", "12", "212", "121", "22", "11"})
-      add(std::string("reinit_x_") + seq, 1, 2);
+      add(std::string("reinit_x_") + seq, 2, 3);
     const char *types[] = {"int", "str", "trk"};
     for (const char *ty : types)
       for (int k = 1; k <= 2; k++)
-        add(std::string("async_") + ty + "_" + std::to_string(k), 2, k == 2 ? 2 : 3);
+        add(std::string("async_") + ty + "_" + std::to_string(k), k == 2 ? 2 : 3, k == 2 ? 3 : 4);
     std::vector<std::string> scripts;
     scripts.push_back("");
     for (size_t i = 0; i < scripts.size(); i++)
@@ -289,9 +289,9 @@ struct Reg
         bool full = std::string(ty) == "str";
         if (!full && s.size() > 2)
           continue;
-        add(std::string("asynctask_") + ty + "_" + s, s.size() == 3 ? 1 : 2, 3);
+        add(std::string("asynctask_") + ty + "_" + s, s.size() == 3 ? 2 : 3, 4);
       }
-    add("asynctask_str_vfv", 2, 3);
+    add("asynctask_str_vfv", 3, 4);
   }
 };
 static Reg reg;
